@@ -83,10 +83,9 @@ func (e *SyncedCachedEnforcer) Enforce(rvals ...interface{}) (bool, error) {
 }
 
 func (e *SyncedCachedEnforcer) LoadPolicy() error {
-	if atomic.LoadInt32(&e.enableCache) != 0 {
-		if err := e.cache.Clear(); err != nil {
-			return err
-		}
+	// also while the cache is disabled: entries cached earlier must not survive re-enabling it
+	if err := e.cache.Clear(); err != nil {
+		return err
 	}
 	return e.SyncedEnforcer.LoadPolicy()
 }
@@ -150,30 +149,24 @@ func (e *SyncedCachedEnforcer) InvalidateCache() error {
 }
 
 func (e *SyncedCachedEnforcer) checkOneAndRemoveCache(params ...interface{}) (bool, error) {
-	if atomic.LoadInt32(&e.enableCache) != 0 {
-		key, ok := e.getKey(ruleAsParams(params)...)
-		if ok {
-			if err := e.cache.Delete(key); err != nil && err != cache.ErrNoSuchKey {
-				return false, err
-			}
+	key, ok := e.getKey(ruleAsParams(params)...)
+	if ok {
+		if err := e.cache.Delete(key); err != nil && err != cache.ErrNoSuchKey {
+			return false, err
 		}
 	}
 	return true, nil
 }
 
 func (e *SyncedCachedEnforcer) checkManyAndRemoveCache(rules [][]string) (bool, error) {
-	if len(rules) != 0 {
-		if atomic.LoadInt32(&e.enableCache) != 0 {
-			for _, rule := range rules {
-				irule := make([]interface{}, len(rule))
-				for i, param := range rule {
-					irule[i] = param
-				}
-				key, _ := e.getKey(irule...)
-				if err := e.cache.Delete(key); err != nil && err != cache.ErrNoSuchKey {
-					return false, err
-				}
-			}
+	for _, rule := range rules {
+		irule := make([]interface{}, len(rule))
+		for i, param := range rule {
+			irule[i] = param
+		}
+		key, _ := e.getKey(irule...)
+		if err := e.cache.Delete(key); err != nil && err != cache.ErrNoSuchKey {
+			return false, err
 		}
 	}
 	return true, nil
@@ -181,11 +174,9 @@ func (e *SyncedCachedEnforcer) checkManyAndRemoveCache(rules [][]string) (bool, 
 
 // ClearPolicy clears all policy.
 func (e *SyncedCachedEnforcer) ClearPolicy() {
-	if atomic.LoadInt32(&e.enableCache) != 0 {
-		if err := e.cache.Clear(); err != nil {
-			e.logger.LogError(err, "clear cache failed")
-			return
-		}
+	if err := e.cache.Clear(); err != nil {
+		e.logger.LogError(err, "clear cache failed")
+		return
 	}
 	e.SyncedEnforcer.ClearPolicy()
 }
